@@ -16,7 +16,11 @@ for name in names:
     st = subprocess.run(['git','-C','/repo','status','--porcelain','--untracked-files=no'],capture_output=True,text=True).stdout.strip()
     if st: print("refusing: /repo dirty"); sys.exit(3)
     r = subprocess.run(['git','-C','/repo','apply',f'{d}/patch.diff'],capture_output=True,text=True)
-    if r.returncode: print(name, "patch does not apply:", r.stderr); continue
+    if r.returncode:
+        # the tree moved on (later fix commits in the same file): fall back to a three-way merge of the patch
+        r = subprocess.run(['git','-C','/repo','apply','--3way',f'{d}/patch.diff'],capture_output=True,text=True)
+        if r.returncode or 'conflicts' in r.stderr:
+            print(name, "patch does not apply:", r.stderr[-300:]); subprocess.run(['git','-C','/repo','checkout','HEAD','--','.']); continue
     results = {}
     try:
         for cid in [pid] + meta.get("extra_checks", []):
@@ -32,7 +36,7 @@ for name in names:
                 if r.returncode not in (0,1): print(r.stderr[-600:])
                 if r.returncode == 1: break
     finally:
-        subprocess.run(['git','-C','/repo','checkout','--','.'])
+        subprocess.run(['git','-C','/repo','checkout','HEAD','--','.'])
     if "checks" in meta and "checks_before_strengthening" not in meta and any(v["verdict"]!="caught" for v in meta["checks"].values()):
         meta["checks_before_strengthening"] = meta["checks"]
     meta["checks"] = results
